@@ -19,11 +19,12 @@ type Profile struct {
 	Newline                                                                            int // percent of terminals that are a newline
 	SharedPrefix                                                                       int // percent of choices whose alternatives share a prefix
 	MaxRune                                                                            bool
+	Dispatch                                                                           int // percent of choices built as first-character dispatch (what -switch rewrites)
 }
 
 var Profiles = map[string]Profile{
 	"plain":      {Name: "plain", MinRules: 2, MaxRules: 6, Depth: 3, AltMin: 2, AltMax: 4, SeqMax: 4, WTerm: 22, WSeq: 20, WAlt: 18, WOpt: 6, WStar: 6, WPlus: 6, WAnd: 4, WNot: 4, WCap: 6, WRef: 8, WAct: 6, WPred: 2, WState: 1, Hostile: 8, Newline: 2},
-	"switchy":    {Name: "switchy", MinRules: 2, MaxRules: 6, Depth: 3, AltMin: 3, AltMax: 6, SeqMax: 3, WTerm: 22, WSeq: 16, WAlt: 30, WOpt: 6, WStar: 5, WPlus: 4, WAnd: 5, WNot: 5, WCap: 4, WRef: 10, WAct: 4, WPred: 1, WState: 0, Hostile: 6, Newline: 1},
+	"switchy":    {Name: "switchy", Dispatch: 60, MinRules: 2, MaxRules: 6, Depth: 3, AltMin: 3, AltMax: 6, SeqMax: 3, WTerm: 22, WSeq: 16, WAlt: 30, WOpt: 6, WStar: 5, WPlus: 4, WAnd: 5, WNot: 5, WCap: 4, WRef: 10, WAct: 4, WPred: 1, WState: 0, Hostile: 6, Newline: 1},
 	"backtracky": {Name: "backtracky", MinRules: 2, MaxRules: 5, Depth: 3, AltMin: 2, AltMax: 4, SeqMax: 4, WTerm: 18, WSeq: 22, WAlt: 22, WOpt: 5, WStar: 5, WPlus: 4, WAnd: 6, WNot: 4, WCap: 10, WRef: 12, WAct: 10, WPred: 1, WState: 0, Hostile: 3, Newline: 1, SharedPrefix: 60},
 	"deep":       {Name: "deep", MinRules: 3, MaxRules: 7, Depth: 4, AltMin: 2, AltMax: 3, SeqMax: 3, WTerm: 14, WSeq: 22, WAlt: 12, WOpt: 6, WStar: 6, WPlus: 6, WAnd: 2, WNot: 2, WCap: 14, WRef: 18, WAct: 8, WPred: 1, WState: 0, Hostile: 10, Newline: 2},
 	"liney":      {Name: "liney", MinRules: 2, MaxRules: 5, Depth: 3, AltMin: 2, AltMax: 4, SeqMax: 5, WTerm: 26, WSeq: 24, WAlt: 14, WOpt: 6, WStar: 6, WPlus: 6, WAnd: 3, WNot: 3, WCap: 6, WRef: 8, WAct: 3, WPred: 1, WState: 0, Hostile: 25, Newline: 25},
@@ -222,6 +223,9 @@ func (s *genState) expr(i, depth int, must, guarded bool) *Expr {
 	case "alt":
 		n := rapid.IntRange(p.AltMin, p.AltMax).Draw(t, "altn")
 		e := &Expr{K: KAlt}
+		if s.pct(p.Dispatch, "dispatch") {
+			return s.dispatch(i, depth, must, guarded)
+		}
 		if s.pct(p.SharedPrefix, "shared") {
 			// alternatives sharing a prefix (with captures/actions inside the prefix)
 			prefix := s.expr(i, depth-1, true, guarded)
@@ -280,6 +284,73 @@ func (s *genState) expr(i, depth int, must, guarded bool) *Expr {
 		return Ref(j)
 	}
 	return s.term()
+}
+
+// dispatch builds an ordered choice whose alternatives mostly start with distinct
+// characters - the shape -switch turns into a switch - where the leading character is
+// preceded, in some alternatives, by an element that does not decide it: a lookahead, an
+// optional or repeated element, a nested choice, a range or a (possibly inlined) reference.
+func (s *genState) dispatch(i, depth int, must, guarded bool) *Expr {
+	t := s.t
+	leads := []rune{'a', 'b', 'c', 'd', 'e', 'f', '0', '1'}
+	n := rapid.IntRange(3, 6).Draw(t, "dn")
+	perm := rapid.Permutation(leads).Draw(t, "leads")
+	e := &Expr{K: KAlt}
+	small := func(label string) *Expr {
+		r := rapid.SampledFrom(leads).Draw(t, label)
+		switch rapid.IntRange(0, 3).Draw(t, label+"k") {
+		case 0:
+			return &Expr{K: KClass, Items: []Item{{r, r + 1}}}
+		case 1:
+			return &Expr{K: KLit, Runes: []rune{r, 'x'}}
+		}
+		return &Expr{K: KLit, Runes: []rune{r}}
+	}
+	for j := 0; j < n; j++ {
+		lead := &Expr{K: KLit, Runes: []rune{perm[j]}}
+		alt := &Expr{K: KSeq}
+		switch k := rapid.IntRange(0, 19).Draw(t, "dprefix"); {
+		case k == 0:
+			alt.Kids = append(alt.Kids, Un(KAnd, small("pa")))
+		case k == 1:
+			alt.Kids = append(alt.Kids, Un(KNot, small("pn")))
+		case k == 2:
+			alt.Kids = append(alt.Kids, Un(KOpt, small("po")))
+		case k == 3:
+			alt.Kids = append(alt.Kids, Un(KStar, small("ps")))
+		case k == 4:
+			lead = &Expr{K: KAlt, Kids: []*Expr{small("n1"), small("n2")}}
+		case k == 5:
+			lead = &Expr{K: KClass, Items: []Item{{perm[j], perm[j] + rune(rapid.IntRange(0, 2).Draw(t, "rw"))}}}
+		case k == 6:
+			lead = Un(KCap, lead)
+		case k == 7:
+			alt.Kids = append(alt.Kids, &Expr{K: KAct})
+		case k == 8 && !must:
+			lead = Un(KOpt, lead)
+		case k == 9:
+			lead = Un(KPlus, lead)
+		case k == 10 && (guarded || i+1 < s.n):
+			var jr int
+			if guarded {
+				jr = rapid.IntRange(0, s.n-1).Draw(t, "drefg")
+			} else {
+				jr = rapid.IntRange(i+1, s.n-1).Draw(t, "drefu")
+			}
+			if s.known[jr] && s.ruleMust[jr] {
+				lead = Ref(jr)
+			}
+		}
+		alt.Kids = append(alt.Kids, lead)
+		if s.pct(60, "dtail") {
+			alt.Kids = append(alt.Kids, s.expr(i, depth-1, false, true))
+		}
+		e.Kids = append(e.Kids, alt)
+	}
+	if !must && s.pct(15, "demptylast") {
+		e.EmptyLast = true
+	}
+	return e
 }
 
 // WellFormedGrammar draws a well-formed grammar of the profile. Every rule is reachable
